@@ -63,13 +63,13 @@ def gen_content(rng, max_top=3, max_children=3, src=None, float_ts=False):
     # images per platform (only platforms that are listed; the tree arch only if listed explicitly)
     for platform in subset(rng, plats, 0, len(plats)):
         table = {}
-        for name in subset(rng, IMAGE_NAMES, 1, 4):
+        for name in subset(rng, IMAGE_NAMES, 0 if rng.random() < 0.35 else 1, 4):      # a platform may have an EMPTY table
             table[name] = "images/%s/%s" % (platform, name)
         K["images"][platform] = table
     if rng.random() < 0.5:
         K["stage2"]["mainimage"] = pick(rng, ["images/install.img", "LiveOS/squashfs.img"])
-        if rng.random() < 0.3:
-            K["stage2"]["instimage"] = "images/inst.img"
+    if rng.random() < 0.2:
+        K["stage2"]["instimage"] = "images/inst.img"        # with or without a mainimage
     if rng.random() < 0.4:
         tot = rng.randint(1, 5)
         K["media"] = {"discnum": rng.randint(1, tot), "totaldiscs": tot}
@@ -128,6 +128,8 @@ def build_ops(K, rng, slot=0, permute=True, vid_base=0):
                 rest.append({"op": "ti_var_path", "var": vid_base + v["n"], "kind": k, "value": val})
         rest.append({"op": "ti_var_add", "var": vid_base + v["n"], "into": "top" if v["parent"] is None else vid_base + v["parent"]})
     for platform, table in K["images"].items():
+        if not table:
+            rest.append({"op": "ti_image_table", "platform": platform})
         for name, path in table.items():
             rest.append({"op": "ti_image", "platform": platform, "name": name, "path": path})
     for f in ("mainimage", "instimage"):
@@ -270,7 +272,8 @@ def gen_discinfo(rng):
     return {"timestamp": ts, "description": pick(rng, ["Fedora 20", "Red Hat Enterprise Linux 7.0", "ünï côde", "a", "it's \"quoted\" inside", "x" * 80,
                                       "#1 Linux 20", "; semi first", "ALL", "1,2,3", "0.5", "[general]", "x = y"]),
             "arch": pick(rng, pools.ARCHES + ["src"]),
-            "disc_numbers": ["ALL"] if rng.random() < 0.4 else sorted(subset(rng, [1, 2, 3, 4, 10, 11], 1, 4))}
+            "disc_numbers": ["ALL"] if rng.random() < 0.4 else (sorted(subset(rng, [1, 2, 3, 4, 10, 11], 1, 4)) if rng.random() < 0.7 else
+                                                                   pick(rng, [[1, 1], [2, 1, 2], [3, 2, 1], [10, 9], [1, 2, 2, 3], [0], [-1, 1]]))}
 
 
 DI_POISON = [
